@@ -1172,6 +1172,7 @@ static int auditMain(int argc, char **argv)
         int nextUid = 1;
         tr.emit(json{{"e", "Reset"}, {"s", structure}, {"p", prm->name}, {"x", x}});
         auto pt = [&]() { return uni[rng.below((int)uni.size())]; };
+        bool visible = false, visibleSparse = false;  // sticky per execution
         for (long i = 0; i < nops; ++i)
         {
             int live = (int)liveEls.size();
@@ -1234,6 +1235,69 @@ static int auditMain(int argc, char **argv)
             ps.after(wasRemove, removeResult);
             json rec = m.probe->dump();
             rec["live"] = (int)liveEls.size();  // what the harness believes (not used by the audit invariants)
+            // Informational only (no verdict reads it): is some answer of a small query battery already wrong
+            // in this state?  Lets the check say how long before a visible error the audit fired.
+            if (!visible)
+            {
+                std::vector<El> res;
+                for (int q : uni)
+                {
+                    std::vector<int> bf;
+                    for (auto &e : liveEls)
+                        bf.push_back(l1(e.pt, q));
+                    std::sort(bf.begin(), bf.end());
+                    for (std::size_t k : {(std::size_t)1, (std::size_t)2, (std::size_t)4, liveEls.size()})
+                    {
+                        nn.nearestK(El{q, -1}, k, res);
+                        std::vector<int> d;
+                        for (auto &e : res)
+                            d.push_back(l1(e.pt, q));
+                        if (d != std::vector<int>(bf.begin(), bf.begin() + std::min(k, bf.size())))
+                            visible = true;
+                    }
+                    for (int rad : {0, 1, 2, 100})
+                    {
+                        nn.nearestR(El{q, -1}, (double)rad, res);
+                        std::vector<int> d;
+                        for (auto &e : res)
+                            d.push_back(l1(e.pt, q));
+                        if (d != std::vector<int>(bf.begin(), std::upper_bound(bf.begin(), bf.end(), rad)))
+                            visible = true;
+                    }
+                }
+                if (nn.size() != liveEls.size())
+                    visible = true;
+            }
+            rec["vis"] = visible;
+            // ... and would a client that issues ONE random query per operation have seen a wrong answer yet?
+            if (!visibleSparse && !liveEls.empty())
+            {
+                int q = pt() + (rng.below(8) == 0 ? 3 : 0);
+                std::vector<int> bf, d;
+                for (auto &e : liveEls)
+                    bf.push_back(l1(e.pt, q));
+                std::sort(bf.begin(), bf.end());
+                std::vector<El> res;
+                if (rng.below(2))
+                {
+                    static const std::size_t ks[] = {1, 2, 3, 5};
+                    std::size_t k = ks[rng.below(4)];
+                    nn.nearestK(El{q, -1}, k, res);
+                    bf.resize(std::min(k, bf.size()));
+                }
+                else
+                {
+                    static const int rads[] = {0, 1, 2, 3, 100};
+                    int rad = rads[rng.below(5)];
+                    nn.nearestR(El{q, -1}, (double)rad, res);
+                    bf.erase(std::upper_bound(bf.begin(), bf.end(), rad), bf.end());
+                }
+                for (auto &e : res)
+                    d.push_back(l1(e.pt, q));
+                if (d != bf)
+                    visibleSparse = true;
+            }
+            rec["visSparse"] = visibleSparse;
             tr.emit(rec);
             ++records;
             Shape sh = m.probe->shape();
